@@ -104,6 +104,9 @@ func VH_C08_Position() {
 	x := symChoice(len(vhC08Exprs) - 1) // the last entry ("a b") is a syntax error, excluded
 	p := symChoice(len(vhC08Positions))
 	ex := vhC08Exprs[x]
+	if p == 12 && ex[0] == '-' {
+		return // "{{-a + b}}" is a whitespace-control dash, not a unary minus
+	}
 	symTag("expr:" + ex)
 	a := symInt()
 	symAssume(a >= 1 && a <= 2)
